@@ -452,3 +452,43 @@ func EnvInt(name string, def int) int {
 func Inconclusive(msg string) {
 	fmt.Printf("VERIF-INCONCLUSIVE %s\n", msg)
 }
+
+// ---- manual stats (for checks that enumerate instead of going through rapid.Check) ---------------
+
+type ManualStats struct {
+	st   *stats
+	prop string
+	test string
+}
+
+func NewManualStats(prop, test string) *ManualStats {
+	return &ManualStats{st: newStats(prop, test), prop: prop, test: test}
+}
+
+// Record registers one enumerated case.
+func (m *ManualStats) Record(c any, nonTrivial bool, labels []string) {
+	cj, err := json.Marshal(c)
+	if err != nil {
+		return
+	}
+	o := &Obs{NonTrivial: nonTrivial}
+	for _, l := range labels {
+		o.Label(l)
+	}
+	m.st.record(cj, o)
+}
+
+// Fail writes the replay file for a failure of an enumerated case and returns its path.
+func (m *ManualStats) Fail(f *Failure) string {
+	var cj []byte
+	if f.Case != nil {
+		cj, _ = json.Marshal(f.Case)
+	}
+	p := writeReplay(m.prop, m.test, cj, f)
+	m.st.mu.Lock()
+	m.st.Failed, m.st.FailureSig, m.st.FailureMsg, m.st.ReplayFile = true, f.Signature, clip(f.Msg, 4000), p
+	m.st.mu.Unlock()
+	return p
+}
+
+func (m *ManualStats) Flush() { m.st.flush() }
